@@ -15,6 +15,20 @@ fn main() {
         println!("{}", engine::union_count(&args[1..]));
         return;
     }
+    if args[0] == "fuzz-to-replay" {
+        // check fuzz-to-replay <ID> <artifact> <out.case>
+        let data = std::fs::read(&args[2]).expect("artifact");
+        match smlverif::fuzz::to_replay(&args[1], &data) {
+            Some(t) => {
+                std::fs::write(&args[3], format!("# converted from libFuzzer artifact {}\n{}", args[2], t)).expect("write");
+                std::process::exit(0)
+            }
+            None => {
+                eprintln!("artifact does not decode to a case");
+                std::process::exit(3)
+            }
+        }
+    }
     if args[0] == "extract-corpus" {
         extract_corpus();
         return;
